@@ -48,13 +48,17 @@ theorem never_crashes (s : State) (r : Req) : shouldRespond s r ≠ .crash := by
   · cases s r.ty <;> simp
 
 theorem never_crashes_delta (s : State) (r : DReq) : shouldRespondDelta s r ≠ .crash := by
-  unfold shouldRespondDelta shouldRespondDeltaG
+  unfold shouldRespondDelta shouldRespondDeltaG deltaFirst deltaTail
   cases r.err <;> simp only []
   · cases s r.ty <;> simp only []
     · simp
     · repeat' split
       all_goals simp
-  · cases s r.ty <;> simp
+  · cases s r.ty <;> simp only []
+    · repeat' split
+      all_goals simp_all
+    · repeat' split
+      all_goals simp_all
 
 /-- Finding F1 (pinned commit 8d5216c, before the `fix:` commit): without the nil guard, a first
     request of a type that carries `error_detail` crashes. -/
@@ -63,7 +67,7 @@ theorem crash_witness_unguarded :
   rfl
 
 theorem crash_witness_unguarded_delta :
-    shouldRespondDeltaG false State.empty
+    shouldRespondDeltaG false false State.empty
       { ty := .cds, sub := [], unsub := [], init := [], nonce := "", err := some "boom" } = .crash := by
   rfl
 
@@ -343,27 +347,60 @@ theorem failed_send_keeps_ack_valid (s : State) (r : Req) (n : String) :
 theorem delta_first_request_or_reconnect_responds (s : State) (r : DReq)
     (hnone : s r.ty = none) (herr : r.err = none) :
     ∃ s', shouldRespondDelta s r = .out true s' := by
-  simp [shouldRespondDelta, shouldRespondDeltaG, herr, hnone]
+  simp [shouldRespondDelta, shouldRespondDeltaG, deltaFirst, herr, hnone]
 
-theorem delta_nack_silent (s : State) (r : DReq) (msg : String) (herr : r.err = some msg) :
+/-- A NACK that carries no subscription change is silent; only the error is recorded. -/
+theorem delta_nack_silent (s : State) (r : DReq) (msg : String) (herr : r.err = some msg)
+    (hc : r.carries = false) :
     shouldRespondDelta s r = .out false (match s r.ty with
       | none => s
       | some w => s.set r.ty (some { w with lastError := msg })) := by
   unfold shouldRespondDelta shouldRespondDeltaG
-  simp only [herr]
+  simp only [herr, hc]
   cases s r.ty <;> simp
 
+/-- A stale ACK that carries no subscription change is silent and changes nothing. -/
 theorem delta_stale_nonce_silent (s : State) (r : DReq) (prev : WR)
     (herr : r.err = none) (hprev : s r.ty = some prev)
-    (hn : r.nonce ≠ "") (hstale : r.nonce ≠ prev.nonceSent) :
+    (hn : r.nonce ≠ "") (hstale : r.nonce ≠ prev.nonceSent) (hc : r.carries = false) :
     shouldRespondDelta s r = .out false s := by
-  simp [shouldRespondDelta, shouldRespondDeltaG, herr, hprev, hn, hstale]
+  have hst : deltaStale prev r := ⟨hn, hstale⟩
+  simp [shouldRespondDelta, shouldRespondDeltaG, herr, hprev, hst, hc]
+
+/-- **A subscription change attached to a stale ACK is not lost.**  It is handled like a spontaneous
+    request: the record is updated, the request is answered when the subscription really changed, and
+    the stale ACK itself is not recorded. -/
+theorem delta_stale_sub_change_applied (s : State) (r : DReq) (prev : WR)
+    (herr : r.err = none) (hprev : s r.ty = some prev)
+    (hn : r.nonce ≠ "") (hstale : r.nonce ≠ prev.nonceSent) (hc : r.carries = true) :
+    shouldRespondDelta s r =
+      .out (deltaChanged prev r || prev.always) (s.set r.ty (some (deltaUpdateG true prev r))) := by
+  have hst : deltaStale prev r := ⟨hn, hstale⟩
+  simp [shouldRespondDelta, shouldRespondDeltaG, deltaTail, herr, hprev, hst, hc]
+
+/-- **A subscription change attached to a NACK is not lost either**: the error is recorded, the ACK is
+    not, and the change is applied to the record. -/
+theorem delta_nack_sub_change_applied (s : State) (r : DReq) (prev : WR) (msg : String)
+    (herr : r.err = some msg) (hprev : s r.ty = some prev) (hc : r.carries = true) :
+    shouldRespondDelta s r =
+      .out (deltaChanged { prev with lastError := msg } r || prev.always)
+        ((s.set r.ty (some { prev with lastError := msg })).set r.ty
+          (some (deltaUpdateG true { prev with lastError := msg } r))) := by
+  simp [shouldRespondDelta, shouldRespondDeltaG, deltaTail, herr, hprev, hc]
 
 theorem insertAll_nil (res : List String) (c : Bool) : insertAll res c [] = (res, c) := rfl
 theorem eraseAll_nil (res : List String) (c : Bool) : eraseAll res c [] = (res, c) := rfl
 
-theorem deltaUpdate_always (prev : WR) (r : DReq) : (deltaUpdate prev r).always = false := by
-  unfold deltaUpdate
+theorem deltaUpdateG_always (d : Bool) (prev : WR) (r : DReq) : (deltaUpdateG d prev r).always = false := by
+  unfold deltaUpdateG
+  split <;> rfl
+
+theorem deltaUpdate_always (prev : WR) (r : DReq) : (deltaUpdate prev r).always = false :=
+  deltaUpdateG_always false prev r
+
+theorem deltaUpdateG_names (d : Bool) (prev : WR) (r : DReq) :
+    (deltaUpdateG d prev r).names = deltaNames prev r := by
+  unfold deltaUpdateG
   split <;> rfl
 
 /-- Closed form of the current-nonce / spontaneous branch of `shouldRespondDelta`. -/
@@ -374,9 +411,38 @@ theorem delta_fresh_branch (s : State) (r : DReq) (prev : WR)
       .out (deltaChanged prev r || prev.always) (s.set r.ty (some (deltaUpdate prev r))) := by
   unfold shouldRespondDelta shouldRespondDeltaG
   simp only [herr, hprev]
-  have hstale : ¬ (r.nonce ≠ "" ∧ r.nonce ≠ prev.nonceSent) := by
+  have hstale : ¬ deltaStale prev r := by
+    unfold deltaStale
     rcases hfresh with h | h <;> simp [h]
-  simp only [hstale, if_false]
+  simp only [hstale, if_false, deltaTail, deltaUpdate]
+
+/-- Closed form for EVERY non-rejecting request on a watched type that is not dropped (i.e. not a stale
+    ACK without a subscription change): the record becomes `deltaNames prev r`. -/
+theorem delta_handled_names (s : State) (r : DReq) (prev : WR) (b : Bool) (s' : State)
+    (herr : r.err = none) (hprev : s r.ty = some prev)
+    (hkept : r.nonce = "" ∨ r.nonce = prev.nonceSent ∨ r.carries = true)
+    (h : shouldRespondDelta s r = .out b s') :
+    ∃ w, s' r.ty = some w ∧ w.names = deltaNames prev r := by
+  by_cases hst : deltaStale prev r
+  · have hc : r.carries = true := by
+      rcases hkept with h1 | h1 | h1
+      · exact absurd h1 hst.1
+      · exact absurd h1 hst.2
+      · exact h1
+    rw [delta_stale_sub_change_applied s r prev herr hprev hst.1 hst.2 hc] at h
+    injection h with _ hs
+    exact ⟨_, by rw [← hs]; simp, deltaUpdateG_names true prev r⟩
+  · have hfresh : r.nonce = "" ∨ r.nonce = prev.nonceSent := by
+      unfold deltaStale at hst
+      by_cases h1 : r.nonce = ""
+      · exact Or.inl h1
+      · right
+        by_cases h2 : r.nonce = prev.nonceSent
+        · exact h2
+        · exact absurd ⟨h1, h2⟩ hst
+    rw [delta_fresh_branch s r prev herr hprev hfresh] at h
+    injection h with _ hs
+    exact ⟨_, by rw [← hs]; simp [deltaUpdate], deltaUpdateG_names false prev r⟩
 
 /-- A delta ACK (current nonce, no subscription change, no forced response pending) is silent. -/
 theorem delta_ack_silent (s : State) (r : DReq) (prev : WR)
@@ -444,36 +510,59 @@ theorem delta_added_names_respond (s : State) (r : DReq) (prev : WR)
   rw [this]
   exact ⟨_, rfl⟩
 
+theorem deltaTail_clean (d : Bool) (s : State) (prev : WR) (r : DReq) (b : Bool) (s' : State)
+    (h : deltaTail d s prev r = .out b s') : ∃ w, s' r.ty = some w ∧ w.always = false := by
+  unfold deltaTail at h
+  injection h with _ hs
+  exact ⟨_, by rw [← hs]; simp, deltaUpdateG_always d prev r⟩
+
+theorem deltaFirst_clean (s : State) (r : DReq) (b : Bool) (s' : State)
+    (h : deltaFirst s r = .out b s') : ∃ w, s' r.ty = some w ∧ w.always = false := by
+  unfold deltaFirst at h
+  injection h with _ hs
+  subst hs
+  exact ⟨_, State.set_same _ _ _, rfl⟩
+
 /-- Whenever a delta request is answered the forced-response flag is consumed. -/
 theorem delta_responded_state_clean (s : State) (r : DReq) (s' : State)
     (h : shouldRespondDelta s r = .out true s') :
     ∃ w, s' r.ty = some w ∧ w.always = false := by
+  unfold shouldRespondDelta shouldRespondDeltaG at h
   cases he : r.err with
   | some msg =>
-    rw [delta_nack_silent s r msg he] at h
-    injection h with hb; cases hb
-  | none =>
+    simp only [he] at h
     cases hp : s r.ty with
     | none =>
-      unfold shouldRespondDelta shouldRespondDeltaG at h
-      simp only [he, hp] at h
-      injection h with _ hs
-      rw [← hs]
-      simp
+      simp only [hp] at h
+      by_cases hc : r.carries = true
+      · rw [if_pos (by simp [hc])] at h
+        exact deltaFirst_clean _ _ _ _ h
+      · have hcf : r.carries = false := by simpa using hc
+        simp [hcf] at h
+    | some w =>
+      simp only [hp] at h
+      by_cases hc : r.carries = true
+      · rw [if_pos (by simp [hc])] at h
+        exact deltaTail_clean _ _ _ _ _ _ h
+      · have hcf : r.carries = false := by simpa using hc
+        simp [hcf] at h
+  | none =>
+    simp only [he] at h
+    cases hp : s r.ty with
+    | none =>
+      simp only [hp] at h
+      exact deltaFirst_clean _ _ _ _ h
     | some prev =>
-      by_cases hst : r.nonce ≠ "" ∧ r.nonce ≠ prev.nonceSent
-      · rw [delta_stale_nonce_silent s r prev he hp hst.1 hst.2] at h
-        injection h with hb; cases hb
-      · have hfresh : r.nonce = "" ∨ r.nonce = prev.nonceSent := by
-          by_cases h1 : r.nonce = ""
-          · exact Or.inl h1
-          · right
-            by_cases h2 : r.nonce = prev.nonceSent
-            · exact h2
-            · exact absurd ⟨h1, h2⟩ hst
-        rw [delta_fresh_branch s r prev he hp hfresh] at h
-        injection h with _ hs
-        exact ⟨_, by rw [← hs]; simp, deltaUpdate_always prev r⟩
+      simp only [hp] at h
+      by_cases hst : deltaStale prev r
+      · rw [if_pos hst] at h
+        by_cases hc : r.carries = true
+        · rw [if_pos (by simp [hc])] at h
+          exact deltaTail_clean _ _ _ _ _ _ h
+        · have hcf : r.carries = false := by simpa using hc
+          simp [hcf] at h
+      · rw [if_neg hst] at h
+        exact deltaTail_clean _ _ _ _ _ _ h
 
 /-- **No loop (delta).** The ACK of any answered delta request is silent. -/
 theorem delta_no_loop (s : State) (r : DReq) (s1 : State)
@@ -568,26 +657,42 @@ theorem mem_deltaWatched (existing : List String) (r : DReq) (x : String) :
     · rintro ⟨h1, h2, _⟩
       exact ⟨h1, h2⟩
 
-/-- **Record = what the client asked for (delta).**  After a delta request that is neither a
-    rejection nor stale (and whose type keeps a name record: not a generator-managed wildcard
-    watch), the server's record is exactly the fold of the client's subscribe / unsubscribe /
-    retained-names history: old record ∪ subscribed ∪ reported, minus unsubscribed, minus `*`. -/
+/-- **Record = what the client asked for (delta).**  After ANY delta request that is not a rejection
+    and is not dropped - current nonce, empty nonce, or a stale ACK that carries a subscription change -
+    (and whose type keeps a name record: not a generator-managed wildcard watch), the server's record is
+    exactly the fold of the client's subscribe / unsubscribe / retained-names history: old record ∪
+    subscribed ∪ reported, minus unsubscribed, minus `*`.  The only dropped requests are stale ACKs
+    WITHOUT a subscription change (`delta_stale_nonce_silent`), which ask for nothing. -/
 theorem delta_record_matches_request (s : State) (r : DReq) (prev : WR) (b : Bool) (s' : State)
     (herr : r.err = none) (hprev : s r.ty = some prev)
-    (hfresh : r.nonce = "" ∨ r.nonce = prev.nonceSent)
+    (hkept : r.nonce = "" ∨ r.nonce = prev.nonceSent ∨ r.carries = true)
     (hm : (r.ty.managed && prev.wildcard) = false)
     (h : shouldRespondDelta s r = .out b s') :
     ∃ w, s' r.ty = some w ∧ ∀ x, x ∈ w.names ↔
       ((x ∈ prev.names ∨ x ∈ r.sub ∨ x ∈ r.init) ∧ x ∉ r.unsub ∧ x ≠ "*") := by
-  rw [delta_fresh_branch s r prev herr hprev hfresh] at h
-  injection h with _ hs
-  refine ⟨deltaUpdate prev r, by rw [← hs]; simp, ?_⟩
+  obtain ⟨w, hw, hn⟩ := delta_handled_names s r prev b s' herr hprev hkept h
+  refine ⟨w, hw, ?_⟩
   intro x
-  have hn : (deltaUpdate prev r).names = (deltaWatched prev.names r).1 := by
-    unfold deltaUpdate deltaNames
+  have hn' : w.names = (deltaWatched prev.names r).1 := by
+    rw [hn]
+    unfold deltaNames
     simp only [hm, Bool.false_eq_true, if_false]
-    split <;> rfl
-  rw [hn]
+  rw [hn']
+  exact mem_deltaWatched prev.names r x
+
+/-- **... and after a NACK that carries a subscription change** (the rejection concerns the response, not
+    the subscription): same fold. -/
+theorem delta_record_matches_request_nack (s : State) (r : DReq) (prev : WR) (msg : String)
+    (herr : r.err = some msg) (hprev : s r.ty = some prev) (hc : r.carries = true)
+    (hm : (r.ty.managed && prev.wildcard) = false) :
+    ∃ b s' w, shouldRespondDelta s r = .out b s' ∧ s' r.ty = some w ∧ ∀ x, x ∈ w.names ↔
+      ((x ∈ prev.names ∨ x ∈ r.sub ∨ x ∈ r.init) ∧ x ∉ r.unsub ∧ x ≠ "*") := by
+  refine ⟨_, _, deltaUpdateG true { prev with lastError := msg } r,
+    delta_nack_sub_change_applied s r prev msg herr hprev hc, State.set_same _ _ _, ?_⟩
+  intro x
+  rw [deltaUpdateG_names]
+  unfold deltaNames
+  simp only [hm, Bool.false_eq_true, if_false]
   exact mem_deltaWatched prev.names r x
 
 /-- The same for the first request of a type on a stream (fresh or reconnect): the record is what was
@@ -599,7 +704,7 @@ theorem delta_first_record (s : State) (r : DReq) (hnone : s r.ty = none) (herr 
   have hsr : shouldRespondDelta s r = .out true (s.set r.ty (some
       { names := if (r.ty.managed && (deltaWatched [] r).2.1) = true then [] else (deltaWatched [] r).1,
         wildcard := (deltaWatched [] r).2.1 })) := by
-    simp only [shouldRespondDelta, shouldRespondDeltaG, herr, hnone]
+    simp only [shouldRespondDelta, shouldRespondDeltaG, deltaFirst, herr, hnone]
   refine ⟨_, { names := if (r.ty.managed && (deltaWatched [] r).2.1) = true then [] else (deltaWatched [] r).1,
                wildcard := (deltaWatched [] r).2.1 }, hsr, State.set_same _ _ _, ?_⟩
   intro x
@@ -628,5 +733,49 @@ example : shouldRespond exState { ty := .eds, names := ["a"], nonce := "n0", err
     = .out false [] exState :=
   stale_nonce_silent exState _ { names := ["a"], nonceSent := "n1" } rfl (by simp [Req.unsub]) (by simp [exState])
     (by simp) (by simp)
+
+/-! ## The subscription change attached to a stale ACK (finding F-C04-2)
+
+Trace: the client subscribes to `a`; the server answers (nonce n1) and pushes again (n2) before the
+client's ACK of n1 arrives; that ACK carries the client's next subscription change `+b` (Envoy attaches
+pending changes to whatever request goes out next); then the client ACKs n2.  The client wants {a, b}. -/
+
+def DRes.state : DRes → State
+  | .out _ s => s
+  | .crash => State.empty
+
+def DRes.responded : DRes → Bool
+  | .out b _ => b
+  | .crash => false
+
+def namesOf (s : State) (t : Ty) : Option (List String) := (s t).map (·.names)
+
+/-- The state after the first three steps of the trace (subscribe a; responses n1 and n2 sent). -/
+def staleTraceS3 (keepSub : Bool) : State :=
+  sendDelta (sendDelta
+    (shouldRespondDeltaG true keepSub State.empty
+      { ty := .eds, sub := ["a"], unsub := [], init := [], nonce := "", err := none }).state
+    .eds "n1" none true) .eds "n2" none true
+
+def staleAckWithSub : DReq := { ty := .eds, sub := ["b"], unsub := [], init := [], nonce := "n1", err := none }
+def ackN2 : DReq := { ty := .eds, sub := [], unsub := [], init := [], nonce := "n2", err := none }
+
+/-- Before the repair the change `+b` is dropped with the stale ACK and never recovered: at the end of
+    the exchange (last message = a plain ACK, processed, not a rejection) the record is {a} although the
+    client asked for {a, b} - the last sentence of the property is false for delta. -/
+theorem delta_stale_sub_lost_witness_unfixed :
+    namesOf (shouldRespondDeltaG true false
+      (shouldRespondDeltaG true false (staleTraceS3 false) staleAckWithSub).state ackN2).state .eds
+      = some ["a"] := by
+  decide
+
+/-- After the repair the same exchange ends with the record {a, b}; the stale request is answered
+    (it adds a name), and the final ACK is silent. -/
+theorem delta_stale_sub_kept :
+    (shouldRespondDelta (staleTraceS3 true) staleAckWithSub).responded = true ∧
+    (shouldRespondDelta (shouldRespondDelta (staleTraceS3 true) staleAckWithSub).state ackN2).responded = false ∧
+    namesOf (shouldRespondDelta
+      (shouldRespondDelta (staleTraceS3 true) staleAckWithSub).state ackN2).state .eds = some ["a", "b"] := by
+  decide
 
 end IstioModel.C04
